@@ -1232,9 +1232,11 @@ pub fn run_t1(profile: &T1Profile, tape: Tape, opts: &T1Opts) -> RunOut {
 }
 
 /// Root-cause discriminator for leak-type findings, from the endpoint's own call-site markers.
-fn leak_cause(mon: &Monitor, side: usize) -> &'static str {
+fn leak_cause(mon: &Monitor, _side: usize) -> &'static str {
+    // a marker on either endpoint explains what is seen on both (the peer of a stream whose
+    // reset never arrives keeps it open too)
     let has = |site: &str| {
-        mon.notes[side].iter().any(|(s, _)| *s == site) || mon.ep[side].events.iter().any(|(e, _)| matches!(e, h2::verif::Ev::Note { site: s2, .. } if *s2 == site))
+        (0..2).any(|side| mon.notes[side].iter().any(|(s, _)| *s == site) || mon.ep[side].events.iter().any(|(e, _)| matches!(e, h2::verif::Ev::Note { site: s2, .. } if *s2 == site)))
     };
     if has("closed-counted-scheduled-reset-not-queued") {
         "scheduled-reset-never-sent"
@@ -1282,9 +1284,10 @@ fn check_idle_state(profile: &T1Profile, plan: &T1Plan, shared: &SharedRef, mon:
         }
         // several unexplained retained records in one run are a different thing from a single one
         {
-            let n_other = out.iter().filter(|v| v.oracle == "stream-retained-when-idle" && v.disc.starts_with("other:") && v.disc.contains(who)).count();
+            let pick = |v: &Violation| v.oracle == "stream-retained-when-idle" && v.disc.starts_with("other:") && v.disc.contains(who) && v.disc.ends_with("refs0:");
+            let n_other = out.iter().filter(|v| pick(v)).count();
             if n_other >= 3 {
-                for v in out.iter_mut().filter(|v| v.oracle == "stream-retained-when-idle" && v.disc.starts_with("other:") && v.disc.contains(who)) {
+                for v in out.iter_mut().filter(|v| pick(v)) {
                     v.disc = format!("{}many", v.disc);
                 }
             }
